@@ -36,7 +36,7 @@ EXPLANATION = (
     "rules run on jobmap and jobmap_sge."
 )
 ASSUMPTIONS = ["Collection.keys() returns a set; JobOutput.exitcode is what run_local recorded (C17.R4)"]
-FLOORS = {"C18.R7": 2, "C18.R8": 2, "C18.R1": 2, "C18.R2": 2, "C18.R3": 4, "C18.R4": 1, "C18.R5": 4, "C18.R6": 2}
+FLOORS = {"C18.R7": 2, "C18.R8": 2, "C18.R1": 2, "C18.R2": 2, "C18.R3": 4, "C18.R4": 1, "C18.R5": 2, "C18.R6": 2}
 
 JOBINPUT_ATTRS = {"hash", "dump", "jid", "commands", "files", "return_files", "envars", "timeout"}
 
@@ -117,13 +117,18 @@ def r1_subset(chk, f):
         uses = [s for s in walk_no_nested(l) if isinstance(s, ast.Subscript) and norm(s.value) == "source" and norm(s.slice) == tv]
         if not uses:
             continue
+        from ..canon import Env
+
+        env = Env(f.node)
         it = l.iter
-        # unwrap tqdm(...) / pb := tqdm(...)
+        # unwrap tqdm(...) / pb := tqdm(...) / pb = tqdm(...); for k in pb
         while True:
             if isinstance(it, ast.NamedExpr):
                 it = it.value
             elif isinstance(it, ast.Call) and call_name(it) in ("tqdm", "sorted", "list", "enumerate") and it.args:
                 it = it.args[0]
+            elif isinstance(it, ast.Name) and isinstance(env.single(it.id), ast.Call) and call_name(env.single(it.id)) in ("tqdm", "sorted", "list", "enumerate"):
+                it = env.single(it.id)
             else:
                 break
         n += 1
@@ -212,18 +217,34 @@ def r3_reuse(chk, f):
 
 def r5_destination(chk, f):
     stores = [s for s in walk_no_nested(f.node) if isinstance(s, ast.Assign) and isinstance(s.targets[0], ast.Subscript) and norm(s.targets[0].value) == "destination"]
-    chk.require(len(stores) >= 2, f"{f.key}: destination stores not found")
+    chk.require(len(stores) >= 1, f"{f.key}: destination stores not found")
     bound = _set_bounds(f)
+    from ..canon import Env
+    from ..cfg import CFG
+
+    env = Env(f.node)
+    cfg = CFG(f.node)
     for i, s in enumerate(stores):
         _tr = [t for t in walk_no_nested(f.node) if isinstance(t, ast.Try) and any(x is s for b in t.orelse for x in ast.walk(b))]
-        branch = "vectorised" if _tr and any("job_len[" in norm(b) for b in _tr[0].body) else "single"
+        branch = "vectorised" if _tr and any("job_len[" in norm(b) for b in _tr[0].body) else ("single" if len(stores) > 1 else "all")
         key = f"{f.key}:destination-store:{branch}"
         k = norm(s.targets[0].slice)
         problems = []
-        # inside the else of a try whose body calls job.process
-        tr = [t for t in walk_no_nested(f.node) if isinstance(t, ast.Try) and any(x is s for b in t.orelse for x in ast.walk(b))]
-        if not tr or not any(has_call(b, {"job.process"}) for b in tr[0].body):
-            problems.append("the store is not in the `else` of the try around job.process(): a result is stored although processing raised (or before it ran)")
+        # the store is reached only over the normal completion of `<value> = job.process(...)` of the same iteration:
+        # on the flow graph, no path from the loop header to the store avoids the normal out-edge of that assignment
+        # (an exception raised by it, or by what precedes it, must not fall through to the store)
+        floops = [l for l in walk_no_nested(f.node) if isinstance(l, ast.For) and any(x is s for x in ast.walk(l))]
+        procs = [x for l in floops[-1:] for x in walk_no_nested(l) if isinstance(x, ast.Assign) and norm(x.targets[0]) == norm(s.value) and has_call(x.value, {"job.process"})]
+        hdr = [n.id for n in cfg.nodes if n.kind == "for" and floops and n.ast is floops[-1]]
+        pn = {n.id for n in cfg.nodes if n.kind == "stmt" and any(n.ast is x for x in procs)}
+        sn = {n.id for n in cfg.nodes if n.kind == "stmt" and n.ast is s}
+        reaches_unprocessed = None
+        if hdr and pn and sn:
+            reaches_unprocessed = cfg.path(hdr, sn, edge_ok=lambda a, b, lab: not (a in pn and lab != "exc"))
+        tr = [t for t in walk_no_nested(f.node) if isinstance(t, ast.Try) and any(x is p for p in procs for b in t.body for x in ast.walk(b))]
+        if not hdr or not pn or not sn or reaches_unprocessed is not None:
+            problems.append("the store can be reached without job.process() having completed in this iteration (it is not in the `else` of the try around it, "
+                            "nor behind a handler that leaves the iteration): a result is stored although processing raised (or before it ran)")
         # inside destination.writing()
         ws = [w for w in walk_no_nested(f.node) if isinstance(w, ast.With) and any(x is s for x in ast.walk(w)) and any(norm(i.context_expr) == "destination.writing()" for i in w.items)]
         if not ws:
@@ -237,6 +258,8 @@ def r5_destination(chk, f):
                     it = it.value
                 elif isinstance(it, ast.Call) and call_name(it) in ("tqdm", "sorted", "list") and it.args:
                     it = it.args[0]
+                elif isinstance(it, ast.Name) and isinstance(env.single(it.id), ast.Call) and call_name(env.single(it.id)) in ("tqdm", "sorted", "list"):
+                    it = env.single(it.id)
                 else:
                     break
             if "SRC" not in bound(it):
